@@ -11,7 +11,8 @@ def combos(ctx, rnd):
     from wcmatch import glob as G
     S, D, MK, ND, SD, MB, B, SP, N, E, F = G.GLOBSTAR, G.DOTGLOB, G.MARK, G.NODIR, G.SCANDOTDIR, G.MATCHBASE, G.BRACE, G.SPLIT, G.NEGATE, G.EXTGLOB, G.FOLLOW
     singles = ['*', '**', '*/', '**/', 'a/*', 'a/', 'a', 'a/**', '**/x', '*/x/', './*', 'a/../*', 'a//x', 'a/./x', '.*', '**/.*', '$ROOT/*', '$ROOT/a/*', '$ROOT/**/x',
-               '$ROOT/a/', '$ROOT//a//x', 'L/*', 'L/', '**/L', 'f', 'f/', '*/*', '?', 'x', '*/..', '../*' if False else '*/.', 'd/d/*', 'ld/*', 'lf', '**/lf']
+               '$ROOT/a/', '$ROOT//a//x', 'L/*', 'L/', '**/L', 'f', 'f/', '*/*', '?', 'x', '*/..', '../*' if False else '*/.', 'd/d/*', 'ld/*', 'lf', '**/lf',
+               'caf\xe9/*', 'caf\xe9/', 'caf\xe9', './caf\xe9//x', 'b/\xfcx', 'b/*', '*/\xfcx', 'Data/*', 'p/q/', 'p/*/f', 'g', 'only-missing']
     fsets = [0, S, S | MK, S | ND, S | D, S | SD, MB | S, MK, ND, S | MK | D, S | F | MK]
     lists = [(['*', 'a/*'], S, None), (['$ROOT/*', '*/*'], 0, None), (['$ROOT/a/*', '*/x', 'a'], S, None), (['*/*', '$ROOT/*'], MK, None), (['**', '!x'], S | ND | N, None),
              (['**', '!**/x'], S | ND | N, None), ('**|!a', S | ND | N | SP, None), ('{**,!f}', S | ND | N | B, None), (['*'], ND, ['a']), (['**'], S | MK, ['**/x']),
